@@ -402,7 +402,41 @@ def m_exclude_under_include(case):
     return bool(extra) and all(any(is_prefix(q, p) for q in bad) for p in extra)
 
 
+def m_alias_key(case):
+    """K13e: the excluded path goes through a numeric / bool dict key whose ==-alias
+    of another type (1 / True / 1.0) is the spelling the other input uses at that place"""
+    t1, t2, opt, P, spec = analyse(case)
+    if not opt.get("ex"):
+        return False
+    for q in spec.ex_paths:
+        for n, e in enumerate(q):
+            if e[0] != "k":
+                continue
+            k = D.uncanon_atom(e[1])
+            if not isinstance(k, (bool, int, float)):
+                continue
+            for t in (t1, t2) + tuple(pyval(case[x]) for x in ("t1b", "t2b") if x in case):
+                cur = t
+                ok = True
+                for tag, x in q[:n]:
+                    try:
+                        if tag == "x" and isinstance(cur, (list, tuple)):
+                            cur = cur[x]
+                        elif tag == "k" and isinstance(cur, dict):
+                            cur = cur[D.uncanon_atom(x)]
+                        else:
+                            ok = False
+                    except (KeyError, IndexError):
+                        ok = False
+                    if not ok:
+                        break
+                if ok and isinstance(cur, dict) and any(kk == k and type(kk) is not type(k) for kk in cur):
+                    return True
+    return False
+
+
 MATCHERS = {"K13a-threshold-shortcut": m_threshold,
+            "K13e-alias-key-spelling": m_alias_key,
             "K13d-exclude-under-include": m_exclude_under_include,
             "K13b-include-substring": m_include_substring,
             "K10-include-key-format": m_include_key_format,
@@ -729,6 +763,9 @@ WITNESSES = [
     ("C13_exclude_independence_threshold_refuted (without it)", {'b': 2}, {'c': 2},
      {"zip": True, "thr": 0.33, "ex": ["root['a']"], "kind": "witness"},
      {'values_changed': {'root': {'new_value': {'c': 2}, 'old_value': {'b': 2}}}}),
+    ("C13_exclude_independent_alias_refuted (dict under key 1)", {1: {'x': 1}}, {True: {'x': 2}},
+     {"zip": True, "thr": 0, "ex": ["root[1]"], "kind": "witness"},
+     {'values_changed': {"root[True]['x']": {'new_value': 2, 'old_value': 1}}}),
     ("exclude_under_include_witness (K13d)", {'a': {'b': 1, 'c': 2}}, {'a': {'b': 2, 'c': 3}},
      {"zip": True, "thr": 0, "ex": ["root['a']['b']"], "inc": ["root['a']"], "kind": "witness"},
      {'values_changed': {"root['a']['b']": {'new_value': 2, 'old_value': 1}, "root['a']['c']": {'new_value': 3, 'old_value': 2}}}),
